@@ -77,10 +77,6 @@ class KNXIPFrame:
         """
         header = KNXIPHeader()
         pos_body = header.from_knx(data)
-        if len(data) < header.total_length:
-            raise IncompleteKNXIPFrame("Incomplete data for KNXIPFrame")
-        # limit data to self.header.total_length for streaming socket data
-        raw_body = data[pos_body : header.total_length]
 
         body: KNXIPBody
         # Core
@@ -150,6 +146,12 @@ class KNXIPFrame:
             raise CouldNotParseKNXIP(
                 f"KNXIPServiceType not implemented: {header.service_type_ident.name}"
             )
+        # after the service type is known to be implemented - no more
+        # octets could make a frame of an unimplemented one
+        if len(data) < header.total_length:
+            raise IncompleteKNXIPFrame("Incomplete data for KNXIPFrame")
+        # limit data to self.header.total_length for streaming socket data
+        raw_body = data[pos_body : header.total_length]
         try:
             body.from_knx(raw_body)
         except (IndexError, ValueError, ConversionError) as err:
